@@ -37,6 +37,16 @@ func cosmosPlans(r *rand.Rand) []*spec.Plan {
 			if r.Intn(4) == 0 {
 				blk.Deferred = one(true)
 			}
+			if r.Intn(3) == 0 {
+				// a continuous check that is re-run while the block executes; with a retry budget and a first
+				// transient failure every run leaves two attempts behind that the next run has to clear
+				a := spec.Action{Steps: step(true, r.Intn(400))}
+				if r.Intn(2) == 0 {
+					a.Retries = 1 + r.Intn(2)
+					a.Steps = []plug.Step{{Out: plug.Transient, SleepUS: r.Intn(200)}, {Out: plug.OK, SleepUS: r.Intn(300)}, {Out: plug.Transient, SleepUS: r.Intn(200)}, {Out: plug.OK, SleepUS: r.Intn(300)}}
+				}
+				blk.Cont = &spec.Checks{DelayUS: 400 + r.Intn(600), Actions: []spec.Action{a}}
+			}
 			for s := 0; s < seqs; s++ {
 				var sq spec.Seq
 				// one action per sequence and per group: the fake ignores ORDER BY c.pos and hands the actions of a
@@ -54,6 +64,11 @@ func cosmosPlans(r *rand.Rand) []*spec.Plan {
 		plans = append(plans, mk("p1", 1+r.Intn(2), 2+r.Intn(2)))
 	}
 	return plans
+}
+
+// cosmosFor adapts cosmosCrashCase to everyNth.
+func cosmosFor(prop string) func(c *Ctx, idx int) CaseResult {
+	return func(c *Ctx, idx int) CaseResult { return cosmosCrashCase(prop, c, idx) }
 }
 
 func cosmosCrashCase(prop string, c *Ctx, idx int) CaseResult {
@@ -131,6 +146,32 @@ func cosmosCrashCase(prop string, c *Ctx, idx int) CaseResult {
 			var vs []ev.Violation
 			res.Counters["cosmos_sk_"+stName(sk.Status("P"))]++
 			switch {
+			case prop == "C05":
+				// the attempt record of every action in the plan the next process ends with
+				if rec.Finals[i] != nil {
+					for _, v := range oracle.Consistency("C05", ps, t, rec.Finals[i], false) {
+						if strings.HasPrefix(v.Sig, "C05/action-status/") {
+							vs = append(vs, v)
+						}
+					}
+				}
+			case prop == "C11":
+				// only plans durably Running are considered: anything else is exactly as the dead process left it
+				if sk.Status("P") != spec.Running {
+					if len(t.Invs) > 0 {
+						vs = append(vs, ev.V("C11", "not-running-executed", stName(sk.Status("P")), "the plan document was durably %s when the process died, yet %s was invoked after restart", stName(sk.Status("P")), t.Invs[0].Tag))
+					} else if fp := rec.Finals[i]; fp != nil {
+						if fp.Reason != sk.Reason {
+							vs = append(vs, ev.V("C11", "not-running-modified", "reason,"+stName(sk.Status("P")), "the plan document was durably %s (reason %d) when the process died, after the next start-up its reason is %d", stName(sk.Status("P")), sk.Reason, fp.Reason))
+						}
+						for _, o := range fp.Objs {
+							if b := sk.Get(o.Addr); b != nil && (b.Status != o.Status || b.Start != o.Start || b.End != o.End) {
+								vs = append(vs, ev.V("C11", "not-running-modified", o.Kind+","+stName(sk.Status("P")), "the plan document was durably %s when the process died, yet after the next start-up %s %s went from %s [%d,%d] to %s [%d,%d]", stName(sk.Status("P")), o.Kind, o.Addr, stName(b.Status), b.Start, b.End, stName(o.Status), o.Start, o.End))
+								break
+							}
+						}
+					}
+				}
 			case sk.Status("P") == spec.Running:
 				if prop == "C09" {
 					vs = c09Oracle(ps, sk, t)
